@@ -6,7 +6,7 @@ WT=$1; NAME=$2; PROPS=$3; DEMO=$4
 SD=/verif/seeded/$NAME
 VC=/tmp/verif_seedcheck_$NAME
 mkdir -p $SD && cp $WT/OUT/patch.diff $WT/OUT/demo.diff $WT/OUT/notes.md $SD/ 2>/dev/null
-/verif/tools/verify_seeded.sh $WT $SD "$DEMO" 2>&1 | tee $SD/confirm.txt
+[ -n "$SKIP_VERIFY" ] || /verif/tools/verify_seeded.sh $WT $SD "$DEMO" 2>&1 | tee $SD/confirm.txt
 cd $WT && git checkout -q -- . && git clean -fdq -e target -e OUT && git apply $SD/patch.diff || exit 1
 mkdir -p $VC && rsync -a --delete --exclude target --exclude .scratch --exclude .git --exclude replays --exclude evidence /verif/ $VC/
 mkdir -p $VC/evidence
